@@ -159,11 +159,11 @@ def _sizes(pdk, emod, params, kw):
 
 
 def _mult(params, kw):
-    """a given multiplier reaches the device (its `mult` or `m` parameter - the PDKs use either), whatever was compiled
+    """a given multiplier reaches the device (its `mult`, `m`, `vm` or `mf` parameter - the PDKs' parameter classes use one of these), whatever was compiled
     earlier in the process"""
     if kw.get("mult") is None:
         return ""
-    have = {a: getattr(params, a) for a in ("mult", "m") if hasattr(params, a)}
+    have = {a: getattr(params, a) for a in ("mult", "m", "vm", "mf") if hasattr(params, a)}
     if not have or any(_val(v) == _val(kw["mult"]) for v in have.values()):
         return ""
     return f"multiplier parameters {have} although mult = {kw['mult']} was given"
